@@ -28,8 +28,6 @@ Fixpoint dec_aux (fuel : nat) (n : N) (acc : bytes) : bytes :=
 
 Definition dec (n : N) : bytes := dec_aux (S (N.size_nat n)) n [].
 
-Definition blen (b : bytes) : N := N.of_nat (length b).
-
 (** writeN(o, id, n) for n >= 0 *)
 Definition write_n (id : N) (n : N) : bytes := id :: dec n ++ crlf.
 (** writeB(o, id, str) *)
